@@ -50,6 +50,9 @@ def run(ctx, selftest=False):
     gd.offlattice(ctx, "C04", 80 if quick else 1500, [("dev_bayes", "OffLatticeBayesIdentity")])
     verdicts = ctx.validate("GaussTrace", traces + otr, timeout=3000)
     ctx.judge(traces + otr, verdicts, families=FAMILIES + ("H.",))
+    # ln_unmarginalized_likelihood at the end of every short HISTORY of calls on one table (spec/History.tla)
+    from .. import history
+    history.check(ctx, "samples", {"C04"}, ("C04.", "H."), selftest=selftest)
     if selftest or not quick:
         import copy
         muts = []
